@@ -152,7 +152,11 @@ func SolveAll(obls []*Obligation, opts SolveOpts) []Result {
 			if opts.DumpDir != "" {
 				os.WriteFile(filepath.Join(opts.DumpDir, sanitize(o.Name)+".smt2"), []byte(q), 0644)
 			}
-			st, sv, out, ms := runSolvers(q, opts.Solvers, opts.TimeoutS, opts.Workdir, fmt.Sprintf("q%d", i))
+			to := opts.TimeoutS
+			if o.Canary && to > 4 {
+				to = 4 // a canary only has to *fail to be proved*; contradictions show up fast
+			}
+			st, sv, out, ms := runSolvers(q, opts.Solvers, to, opts.Workdir, fmt.Sprintf("q%d", i))
 			r := Result{Name: o.Name, Kind: o.Kind, Fn: o.Fn, Status: st, Solver: sv, Ms: ms, Output: out, Canary: o.Canary, Pos: o.Pos, Text: o.Text, Query: q}
 			if st == "sat" {
 				r.Model = out
